@@ -328,6 +328,140 @@ fn kernel_cross_check(args: &Args, res: &mut RunResult) {
     res.ev("kernel_rounds", 40);
 }
 
+/// A user-written source over several fds whose set of active sub-sources changes between re-registrations, so that
+/// the sub-id of one fd moves back and forth (1 -> 0 -> 1 ...): the key the kernel holds must follow every time
+struct Multi {
+    fds: Vec<std::os::fd::OwnedFd>,
+    active: Vec<bool>,
+    registered: Vec<bool>,
+    tokens: Vec<Option<calloop::Token>>,
+}
+
+impl calloop::EventSource for Multi {
+    type Event = ();
+    type Metadata = ();
+    type Ret = ();
+    type Error = std::io::Error;
+    fn process_events<F>(&mut self, _: calloop::Readiness, _: calloop::Token, _: F) -> Result<PostAction, Self::Error>
+    where
+        F: FnMut((), &mut ()),
+    {
+        Ok(PostAction::Continue)
+    }
+    fn register(&mut self, poll: &mut calloop::Poll, f: &mut calloop::TokenFactory) -> calloop::Result<()> {
+        for i in 0..self.fds.len() {
+            if self.active[i] {
+                let t = f.token();
+                unsafe { poll.register(&self.fds[i], Interest::READ, Mode::Level, t)? };
+                self.registered[i] = true;
+                self.tokens[i] = Some(t);
+            }
+        }
+        Ok(())
+    }
+    fn reregister(&mut self, poll: &mut calloop::Poll, f: &mut calloop::TokenFactory) -> calloop::Result<()> {
+        for i in 0..self.fds.len() {
+            match (self.active[i], self.registered[i]) {
+                (true, true) => {
+                    let t = f.token();
+                    poll.reregister(&self.fds[i], Interest::READ, Mode::Level, t)?;
+                    self.tokens[i] = Some(t);
+                }
+                (true, false) => {
+                    let t = f.token();
+                    unsafe { poll.register(&self.fds[i], Interest::READ, Mode::Level, t)? };
+                    self.registered[i] = true;
+                    self.tokens[i] = Some(t);
+                }
+                (false, true) => {
+                    poll.unregister(&self.fds[i])?;
+                    self.registered[i] = false;
+                    self.tokens[i] = None;
+                }
+                (false, false) => {}
+            }
+        }
+        Ok(())
+    }
+    fn unregister(&mut self, poll: &mut calloop::Poll) -> calloop::Result<()> {
+        for i in 0..self.fds.len() {
+            if self.registered[i] {
+                poll.unregister(&self.fds[i])?;
+                self.registered[i] = false;
+                self.tokens[i] = None;
+            }
+        }
+        Ok(())
+    }
+}
+
+fn kernel_composite_check(args: &Args, res: &mut RunResult) {
+    let mut el: EventLoop<()> = EventLoop::try_new().expect("loop");
+    let h = el.handle();
+    let epfd = el.as_raw_fd();
+    let mut rng = Rng::derive(args.seed, 4040, args.shard);
+    for round in 0..6 {
+        let n = rng.range(2, 4) as usize;
+        let m = Multi { fds: (0..n).map(|_| sysx::eventfd_new()).collect(), active: (0..n).map(|_| rng.chance(2, 3)).collect(), registered: vec![false; n], tokens: vec![None; n] };
+        let raws: Vec<i32> = m.fds.iter().map(|f| f.as_raw_fd()).collect();
+        let disp = calloop::Dispatcher::new(m, |_, _, _: &mut ()| {});
+        let tok = h.register_dispatcher(disp.clone()).expect("register");
+        for step in 0..30 {
+            {
+                let mut src = disp.as_source_mut();
+                // mostly one sub-source goes away or comes back: the ones after it change their sub-id
+                let i = rng.below(n as u64) as usize;
+                src.active[i] = !src.active[i];
+                if rng.chance(1, 4) {
+                    let j = rng.below(n as u64) as usize;
+                    src.active[j] = !src.active[j];
+                }
+            }
+            if let Err(e) = h.update(&tok) {
+                res.violations.push(viol(args, "no_err", "update-failed", format!("update() of a multi-fd source failed: {}", e), json!({"engine":"tok","composite_round":round,"step":step})));
+                break;
+            }
+            let table = sysx::epoll_table(epfd);
+            let src = disp.as_source_ref();
+            let mut keys = Vec::new();
+            for i in 0..n {
+                let entry = table.iter().find(|e| e.tfd == raws[i]);
+                match (src.registered[i], entry) {
+                    (true, Some(e)) => {
+                        let want = src.tokens[i].map(|t| t.verif_key() as u64).unwrap_or(u64::MAX);
+                        keys.push(e.data);
+                        if e.data != want {
+                            res.violations.push(viol(
+                                args,
+                                "kernel_key",
+                                "epoll-data-differs-after-rekeying",
+                                format!("fd {} (sub-source {} of {}) was given token key {:#x} but the kernel holds {:#x}", raws[i], i, n, want, e.data),
+                                json!({"engine":"tok","composite_round":round,"step":step}),
+                            ));
+                        }
+                    }
+                    (true, None) => res.violations.push(viol(args, "kernel_key", "registered-fd-missing", format!("fd {} is registered but not in the epoll table", raws[i]), json!({"engine":"tok","composite_round":round,"step":step}))),
+                    (false, Some(_)) => res.violations.push(viol(args, "kernel_key", "unregistered-fd-present", format!("fd {} is unregistered but still in the epoll table", raws[i]), json!({"engine":"tok","composite_round":round,"step":step}))),
+                    (false, None) => {}
+                }
+            }
+            let k = keys.len();
+            keys.sort_unstable();
+            keys.dedup();
+            if keys.len() != k {
+                res.violations.push(viol(args, "kernel_key", "duplicate-live-key", format!("two fds of one source share a kernel key after re-registration: {:?}", table), json!({"engine":"tok","composite_round":round,"step":step})));
+            }
+            res.evaluations += 1;
+            res.nontrivial += 1;
+            res.classes.insert(fnv(&[99, n as u64, src.active.iter().fold(0u64, |a, b| a * 2 + *b as u64)]));
+        }
+        h.remove(tok);
+        drop(disp);
+    }
+    el.dispatch(std::time::Duration::ZERO, &mut ()).ok();
+    res.ev("kernel_rekeying_steps", 180);
+}
+
 fn main() {
     let args = Args::parse();
     install_panic_hook();
@@ -348,6 +482,8 @@ fn main() {
             plane(&args, id, ver as u32, ver as u32 + 1, &mut res);
         } else {
             kernel_cross_check(&args, &mut res);
+        kernel_composite_check(&args, &mut res);
+            kernel_composite_check(&args, &mut res);
         }
         for v in &res.violations {
             println!("reproduced: {} :: {}", v.signature(), v.detail);
@@ -400,6 +536,7 @@ fn main() {
     if args.shard == 0 {
         mark_case(&args.out, 0, "kernel");
         kernel_cross_check(&args, &mut res);
+        kernel_composite_check(&args, &mut res);
     }
 
     res.samples.push(json!({"triple":[ids[ids.len()/2], v_lo, 0x155], "key": format!("{:#x}", pack(ids[ids.len()/2], v_lo as u16, 0x155)), "decoded": format!("{:?}", unpack(pack(ids[ids.len()/2], v_lo as u16, 0x155)))}));
